@@ -21,6 +21,7 @@ separated by `|`; protocol documented in harness/bind-native/README.md.  The ima
   sig|<variant>|<fn>                   model of `Resolve::wasm_signature` + spec-side 16/1 decisions at p
   postfrees|<p>|<fn>|<retarea>|<dump>  model of the code: blocks the generated cabi_post_* frees
         → ok freed=<addr:size:align,…> spec=<…> skipflist=<…> | panic | stuck
+  rustobserve|<T>|<VAL>                model of the code: the value Rust code observes when the host sends VAL
   canon|<T>                            → rust=<0|1> bits=<0|1>
   resource|<script>                    C07: see Witverif/Abi/Resource.lean (`runScript`)
 -/
@@ -131,6 +132,10 @@ def handle (line : String) : String :=
                     ++ " skipflist=" ++ triplesStr (RustProfile.resultBlocksSkippingFlists p r ra m)
               | none => "stuck"
       | _, _, _, _ => "bad-request"
+  | ["rustobserve", t, v] =>
+      match parseTy t, parseVal v with
+      | some t, some v => if !Spec.hasTy t v then "bad-value" else "ok " ++ showVal (RustProfile.rustObserve t v)
+      | _, _ => "bad-request"
   | ["canon", t] =>
       match parseTy t with
       | some t => "rust=" ++ b01 (RustProfile.rustCanon t) ++ " bits=" ++ b01 (allBitsValid t)
